@@ -146,6 +146,7 @@ class Scratch:
         libp = os.path.join(src, "lib.rs")
         lib = open(libp).read()
         lib = lib.replace("#![forbid(unsafe_code)]", "#![cfg_attr(not(kani), forbid(unsafe_code))]")
+        lib = '#![cfg_attr(kani, recursion_limit = "1024")]\n' + lib
         lib += '\n#[cfg(kani)] #[path = "%s"] pub(crate) mod __verif_support;\n' % os.path.join(
             self.hdir, "support.rs")
         open(libp, "w").write(lib)
@@ -370,7 +371,7 @@ def native_replay(h, tests, descs, scratch, tag):
     for n, (kind, desc, src) in zip(names, tests):
         for prof, r in results[n].items():
             infra = any(x in r["panic"] for x in ("det vals", "kani::assume", "assume should", "concrete_playback",
-                                                  "Expected ", "kani::any"))
+                                                  "Expected ", "kani::any", "concrete playback", "concrete values left over"))
             ok = (r["status"] == "FAILED" and r["panic"] != "" and not infra) or r["status"] == "HANG"
             detail.append("%s/%s: %s panic=%r (solver check: %r)" % (n, prof, r["status"], r["panic"], desc))
             if ok:
